@@ -1,6 +1,6 @@
 """C16 — `incan test` reports the truth.
 
-proof:   coq/C16/Props.v (19 theorems over all test lists / file trees / raw-verdict functions).
+proof:   coq/C16/Props.v (23 theorems over all test lists / file trees / raw-verdict functions).
 tie:     hand model C16/Model.v vs the REAL runner driven end to end: vharness re-executes itself as
          the `incan` binary (clap parsing -> cli::execute -> test_runner::run_tests ->
          run_single_test -> `cargo test`) on generated trees of test files with a stub `cargo`
@@ -449,14 +449,26 @@ def parse_run(out):
     return r
 
 
+def cargo_argv_view(argv):
+    """('test', [positional filters], exact?) of a logged `cargo <argv>` — a positional argument before or after `--`
+    is a libtest name filter (substring match unless --exact)."""
+    toks = argv.split()
+    sub = toks[0] if toks else ""
+    rest = [t for t in toks[1:] if t != "--"]
+    return (sub, [t for t in rest if not t.startswith("-")], "--exact" in rest)
+
+
 def model_view(mv):
     """parsed Coq value of run_case -> same canonical view."""
     (kind, exit_, collected, st, fixtures) = mv      # Coq prints left-nested pairs flat
     (results, counts, executed, parts) = st
     lines = [(pystr(fn), pystr(tn), rr[0], pystr(rr[1])) for (fn, tn, rr) in results]
     return {"kind": kind, "exit": exit_, "collected": collected, "lines": lines, "counts": list(counts),
-            "executed": [(pystr(a), pystr(b)) for (a, b, _) in executed],
-            "executed_runs_body": [(pystr(a), pystr(b), bool(rb)) for (a, b, rb) in executed], "parts": [tuple(p) for p in parts],
+            "executed": [(pystr(a), pystr(b)) for (a, b, _, _) in executed],
+            # per executed test: names carrying #[test] in its generated harness, libtest filter the runner passes
+            "executed_harness": [(pystr(a), pystr(b), sorted(pystr(x) for x in mk), (([pystr(flt[1])] if flt[0] else []), bool(flt[2])))
+                                 for (a, b, mk, flt) in executed],
+            "parts": [tuple(p) for p in parts],
             "fixtures": sorted(pystr(f) for f in fixtures)}
 
 
@@ -592,8 +604,36 @@ def truth_files(tier):
         Fn("test_fixture_param_body_passes", params=["db"], body="assert_eq(db, 1)"),
     ], imports=TRUTH_IMPORT)
     tp = {"test_fixture_param_body_fails": False, "test_fixture_param_body_passes": True}
-    sets = [(trio, truth, []), (fp, tp, [])]
+    # names that contain one another (a libtest positional argument is a SUBSTRING filter): the verdict of
+    # test_add must not depend on test_add_big / test_add_big_overflow, whatever their markers and bodies
+    fn_ = TFile("test_truth_names.incn", 7, [
+        Fn("test_add", body="assert_eq(1 + 1, 2)"),
+        Fn("test_add_big", decs=[("skip", ("pos", "too big"))], body="assert_eq(1, 2)"),
+        Fn("test_add_big_overflow", body="assert_eq(1, 2)"),
+        Fn("test_sub", decs=[("xfail", ("pos", "known"))], body="assert_eq(2 - 1, 1)"),
+        Fn("test_sub_neg", body='fail("boom")'),
+        Fn("test_mul", body="assert_eq(2 * 2, 4)"),
+        Fn("test_mul_slow", decs=[("slow", None)], body="assert_eq(2 * 2, 5)"),
+    ], imports=TRUTH_IMPORT)
+    tn = {"test_add": True, "test_add_big": False, "test_add_big_overflow": False, "test_sub": True, "test_sub_neg": False,
+          "test_mul": True, "test_mul_slow": False}
+    sets = [(fn_, tn, []), (fp, tp, [])]
     if tier == "thorough":
+        sets.append((trio, truth, []))
+        # every combination base x longer-named sibling: base in {pass, fail, xfail-pass, xfail-fail},
+        # sibling marker in {none, skip, xfail, slow}, sibling body in {pass, fail}; run with --slow
+        k = 0
+        for bi, (bdecs, bok) in enumerate([([], True), ([], False), ([("xfail", ("pos", "b"))], True), ([("xfail", ("pos", "b"))], False)]):
+            decls, tr = [], {}
+            for sdecs in ([], [("skip", ("pos", "s"))], [("xfail", ("pos", "x"))], [("slow", None)]):
+                for sok in (True, False):
+                    tag = "f" + chr(97 + k // 26) + chr(97 + k % 26)
+                    k += 1
+                    base, sib = "test_%s" % tag, "test_%s_long" % tag
+                    decls.append(Fn(base, decs=list(bdecs), body="assert_eq(1, 1)" if bok else "assert_eq(1, 2)"))
+                    decls.append(Fn(sib, decs=list(sdecs), body="assert_true(true)" if sok else 'fail("sibling")'))
+                    tr[base], tr[sib] = bok, sok
+            sets.append((TFile("test_truth_family%d.incn" % bi, 10 + bi, decls, imports=TRUTH_IMPORT), tr, ["--slow"]))
         fz = TFile("test_truth_parametrize.incn", 5, [
             Fn("test_parametrized_body_fails", decs=[("parametrize", ("raw", '"v", [1, 2]'))], params=["v"], body="assert_eq(v, 0)"),
             Fn("test_plain_next_to_it_fails", body="assert_eq(1, 2)"),
@@ -628,13 +668,15 @@ def truth_files(tier):
     return sets
 
 
-def truth_expected(f, truth):
+def truth_expected(f, truth, extra=()):
     """verdict lines a truthful runner prints."""
     lines = []
     for d in f.decls:
-        if not d.name.startswith("test_"):
+        if not isinstance(d, Fn) or not d.name.startswith("test_") or any(dn == "fixture" for dn, _ in d.decs):
             continue
         ms = py_markers(d)
+        if "--slow" not in extra and any(m == "slow" for m, _ in ms):
+            continue
         skips = [r for m, r in ms if m == "skip"]
         xf = [r for m, r in ms if m == "xfail"]
         ok = f.compiles() and truth[d.name]
@@ -677,13 +719,21 @@ def run_truth(chk, binary, res):
         for pat in INFRA_PATTERNS:
             if pat.lower() in blob.lower():
                 raise vlib.Infra("real cargo could not build the generated test project (%s):\n%s" % (pat, blob[-1500:]))
-        want = truth_expected(f, truth)
+        want = truth_expected(f, truth, extra)
         got = r["lines"]
+        if len(got) != len(want):
+            fails.append({"oracle": "harness-truth (real cargo)", "why": "reported tests %r, selected tests %r" % ([l[1] for l in got], [l[1] for l in want]),
+                          "file": f.name, "source": f.text(), "args": ["test", "."] + extra, "stdout": o.get("stdout", "")[-3000:]})
         want_exit = 1 if any(l[2] in (1, 4) for l in want) else 0
         h = o.get("harness", {})
         rb = {n: bool(v.get("selected_is_test") or v.get("calls_selected")) for n, v in h.items()}
         decl = {d.name: d for d in f.decls if isinstance(d, Fn)}
-        # tie: the generated harness executes exactly what Model.harness_runs_body says
+        # tie: the generated harness marks exactly what Model.gen_current says (the selected function or nothing)
+        for n, v in h.items():
+            want_marked = [n] if (n in decl and model_runs_body(decl[n])) else []
+            if n in decl and sorted(set(v.get("marked", []))) != want_marked:
+                corr.append({"file": f.name, "source": f.text(),
+                             "model_vs_impl": [("functions carrying #[test] in the harness generated for %s" % n, want_marked, v.get("marked"))]})
         for n, v in rb.items():
             if n in decl and f.compiles() and v != model_runs_body(decl[n]):
                 corr.append({"file": f.name, "source": f.text(),
@@ -711,7 +761,7 @@ def run_truth(chk, binary, res):
             if in_class:
                 known_cases.append({"file": f.name, "source": f.text(), **w})
             else:
-                why = "a test whose body fails is not reported truthfully"
+                why = "the verdict reported for %s is not the truthful verdict of its own body (its markers applied to: body ran to completion = %s)" % (n, truth.get(n))
                 if d is not None and model_runs_body(d) and not rb.get(n, False):
                     why = ("defect test-body-never-run is back: the generated main.rs does not execute the selected "
                            "parameterless, non-async test (no #[test] on it), so its failing body is not reported")
@@ -728,9 +778,9 @@ def coq_truth_term(f, truth, extra):
 
 TRUTH_RUN = ("fun c => let '(n, slow, comp, oks) := c in "
              "let ts := select None slow (all_tests (discover_files (Some n))) in "
-             "let s := loop false (raw_of_harness harness_runs_body (fun _ => comp) (fun t => mem_str (t_name t) oks)) ts st0 in "
+             "let s := loop false (raw_of_harness gen_current (fun _ => comp) (fun t => mem_str (t_name t) oks)) ts st0 in "
              "(map (fun tr => (t_name (fst tr), fst (render_result (snd tr)))) (results s), exit_code s, "
-             " map (fun t => (t_name t, known_body_not_executedb harness_runs_body (fun _ => comp) (fun t => mem_str (t_name t) oks) t, harness_runs_body t)) ts)")
+             " map (fun t => (t_name t, known_body_not_executedb gen_current (fun _ => comp) (fun t => mem_str (t_name t) oks) t, harness_runs_body t)) ts)")
 
 
 # ------------------------------------------------------------------------------------------------
@@ -809,7 +859,7 @@ def run(chk):
     ]
     chk.assumptions = [
         "run_single_test is modelled as an explicit argument run : test -> raw; for the stub it is the scripted exit status (and `false` when the file does not type-check), for the real cargo it is raw_of_harness with runs_body measured from the generated main.rs",
-        "harness truth (Passed only if the body ran to completion) is proved relative to raw_of_harness harness_runs_body (tied: #[test] on the selected function is read off every generated main.rs); it holds for parameterless non-async tests (C16_truthful_for_plain_tests) and is refuted for tests with parameters/fixtures and async tests, which the generated harness does not execute (known finding test-with-params-not-executed; files with an async function do not build in the generated test project, so async tests are FAILED, outside the class)",
+        "harness truth (Passed only if the body ran to completion) is proved relative to raw_of_harness gen_current, the model of the generated project: which functions carry #[test] and which libtest filter the runner passes (tied on every run: the set of #[test] functions is read off every generated main.rs and the `cargo test` argv is read off the stub's log; libtest's semantics — a positional argument is a substring filter unless --exact — is an assumption, exercised by the real-cargo runs on tests whose names contain one another); it holds for parameterless non-async tests (C16_truthful_for_plain_tests) and is refuted for tests with parameters/fixtures and async tests, which the generated harness does not execute (known finding test-with-params-not-executed; files with an async function do not build in the generated test project, so async tests are FAILED, outside the class)",
         "exit status 1 for 'no test files found' and for --fail-on-empty is the documented table (C16_exit_documented); C16_exit_nonzero_iff covers runs that collected at least one test",
         "test files that do not lex/parse are dropped with a message on stderr and do not affect the exit status (modelled as observed; the property statement does not cover them)",
         "@parametrize is not expanded and fixtures are never injected by the runner (modelled as observed: one verdict per function)",
@@ -923,15 +973,25 @@ def run(chk):
             if c["opts"]["verbose"] and r["kind"] in (1, 2):
                 if r["fixtures"] != m["fixtures"] or (r["fixture_header"] or 0) != len(m["fixtures"]):
                     diffs.append(("fixtures (listed sorted by name)", m["fixtures"], (r["fixture_header"], r["fixtures"])))
-            # the generated harness: #[test] on the selected function iff the model says its body runs
+            # the generated harness, both halves: (a) the SET of functions carrying #[test] in the generated
+            # main.rs is the model's h_marked (exactly the selected function, or nothing), (b) the libtest
+            # arguments of every `cargo test` call are the model's h_filter (no positional filter)
             hz = o.get("harness", {})
-            last_rb = {}
-            for (fn, tn, rb) in m["executed_runs_body"]:
-                if files[fn].compiles():
-                    last_rb[tn] = rb
-            for tn, rb in last_rb.items():
-                if tn in hz and bool(hz[tn]["selected_is_test"] or hz[tn]["calls_selected"]) != rb:
-                    diffs.append(("generated harness executes %s" % tn, rb, hz[tn]))
+            compiled = [e for e in m["executed_harness"] if files[e[0]].compiles()]
+            last = {}
+            for (fn, tn, marked, flt) in compiled:
+                last[tn] = marked
+            for tn, marked in last.items():
+                if tn in hz and sorted(set(hz[tn].get("marked", []))) != marked:
+                    diffs.append(("functions carrying #[test] in the harness generated for %s" % tn, marked, hz[tn].get("marked")))
+                if tn in hz and hz[tn].get("calls_selected") and not hz[tn].get("selected_is_test"):
+                    diffs.append(("generated harness calls %s from other code" % tn, marked, hz[tn]))
+            if len(compiled) == len(log):
+                for (fn, tn, marked, flt), e in zip(compiled, log):
+                    got_argv = cargo_argv_view(e.split(" ", 1)[1] if " " in e else "")
+                    want_argv = ("test", flt[0], flt[1])
+                    if got_argv != want_argv:
+                        diffs.append(("cargo argv for %s (subcommand, positional libtest filters, --exact)" % tn, want_argv, (got_argv, e)))
             if diffs:
                 corr_bad.append({**detail, "model_vs_impl": diffs})
         # (3) discovery API vs model
@@ -984,7 +1044,7 @@ def run(chk):
             ires = [(l[1], l[2]) for l in r["lines"]]
             if mres != ires or m[1] != r["exit"]:
                 corr_bad.append({"file": f.name, "source": f.text(), "args": ["test", "."] + extra,
-                                 "model_vs_impl": [("real cargo vs raw_of_harness harness_runs_body", (mres, m[1]), (ires, r["exit"]))]})
+                                 "model_vs_impl": [("real cargo vs raw_of_harness gen_current", (mres, m[1]), (ires, r["exit"]))]})
             # the Python class decision and runs_body mirror must coincide with the Coq definitions
             decl = {d.name: d for d in f.decls if isinstance(d, Fn)}
             coq_known = {pystr(n) for (n, k, _) in m[2] if k}
